@@ -96,6 +96,28 @@ func init() {
 		return fr.i.newError("<multierror>")
 	}
 
+	// github.com/otiai10/primes: table of small primes (sieve evaluated natively)
+	primesUntil := func(fr *frame, n int64) value {
+		var s value = structure{n}
+		return &s
+	}
+	intrinsics["github.com/otiai10/primes.Until"] = func(fr *frame, a []value) value { return primesUntil(fr, asInt64(a[0])) }
+	intrinsics["(*github.com/otiai10/primes.cache).Until"] = func(fr *frame, a []value) value { return primesUntil(fr, asInt64(a[1])) }
+	intrinsics["(*github.com/otiai10/primes.Primes).List"] = func(fr *frame, a []value) value {
+		n := (*a[0].(*value)).(structure)[0].(int64)
+		var out []value
+		sieve := make([]bool, n+1)
+		for i := int64(2); i <= n; i++ {
+			if !sieve[i] {
+				out = append(out, i)
+				for j := i * i; j <= n; j += i {
+					sieve[j] = true
+				}
+			}
+		}
+		return out
+	}
+
 	intrinsics["reflect.TypeOf"] = func(fr *frame, a []value) value {
 		itf := a[0].(iface)
 		if itf.t == nil {
